@@ -1,6 +1,7 @@
 (* Properties_C18.v -- C18: composite preconditioners realise their block formulas.
    Statements only; proofs: CompositeProofs.v.  Inner solvers are abstract functions. *)
-From Amgcl Require Import Scalar QcInst Vec Crs Kernels KernelsProofs MatOps Adapters Composite CompositeProofs CompositeProofs2.
+From Amgcl Require Import Scalar QcInst Vec Crs Kernels KernelsProofs MatOps Adapters Composite CompositeProofs CompositeProofs2
+  CompositeProofs3 CompositeProofs4 CompositeProofs5 CompositeExamples.
 Local Open Scope S_scope.
 
 Section Ring.
@@ -82,15 +83,215 @@ Theorem C18_block_products_are_linear_Qc (A : crs QcS) (a b : vec QcS) :
 Proof. exact (C18_block_products_are_linear QcS QcS_ring A a b). Qed.
 Print Assumptions C18_block_products_are_linear_Qc.
 
-(* FULL STATEMENTS (unproved; tied by correspondence + specification oracles instead):
-   A1  for every mask with length mask = nrows K = ncols K and wf K:
-         mv K x = scatter_up mask (vadd (mv Kuu xu) (mv Kup xp)) (vadd (mv Kpu xu) (mv Kpp xp))
-       with Kab = sub_block K mask a b, xu = gather mask false x, xp = gather mask true x
-       (oracle o.reassemble on every schur case);
-   A2' schur_op adjust_p ... = schur_true ... for adjust_p in {0,2}, and for adjust_p = 1 when
-       every row of Kpp has a structural diagonal entry.  For adjust_p = 1 and a pressure row
-       WITHOUT a diagonal entry the faithful model (kpp_adjust1 keeps the row, L is still added)
-       and the implementation agree with each other and are NOT the inverse: known finding
-       C18-schur-adjust1-no-diagonal;
-   A4  deflate_project: with E Einv = I, dotv z (vsub b (mv A (deflate_project A Z Einv b x))) = 0
-       for every z in Z (oracle o.deflate; model vs implementation on project()). *)
+(* ------------------------------------------------------------------------------------ *)
+(* A1, A2', A4: the statements that were only tied by oracles before (commutative ring). *)
+Section Ring2.
+Variable S : Scalar.
+Hypothesis Srt : Sring S.
+
+(* A1: for every mask, the four sub-blocks extracted by sub_block together with the gather
+   (x2u, x2p) and scatter (u2x, p2x) maps reassemble K:
+       K x = u2x (Kuu x_u + Kup x_p) + p2x (Kpu x_u + Kpp x_p) *)
+Theorem C18_reassemble (K : crs S) (mask : list bool) (x : vec S) :
+  wf K = true -> nrows K = length mask -> ncols K = length mask -> length x = length mask ->
+  let xu := gather mask false x in let xp := gather mask true x in
+  mv K x = scatter_up mask (vadd (mv (sub_block K mask false false) xu) (mv (sub_block K mask false true) xp))
+                           (vadd (mv (sub_block K mask true false) xu) (mv (sub_block K mask true true) xp)).
+Proof. exact (reassemble Srt K mask x). Qed.
+
+(* shapes of the extracted blocks: what makes them "linear maps" in the sense of A2 *)
+Theorem C18_sub_block_shape (K : crs S) (mask : list bool) (rp cp : bool) :
+  wf K = true -> nrows K = length mask -> ncols K = length mask ->
+  wf (sub_block K mask rp cp) = true /\ nrows (sub_block K mask rp cp) = count_of rp mask /\
+  ncols (sub_block K mask rp cp) = count_of cp mask.
+Proof.
+  intros H1 H2 H3. split; [exact (sub_block_wf K mask rp cp H1 H2 H3)|].
+  split; [exact (sub_block_nrows K mask rp cp H2)|exact (sub_block_ncols K mask rp cp)].
+Qed.
+
+(* gather after scatter is the identity as well (x2u u2x = I, x2p p2x = I, x2u p2x = 0, ...) *)
+Theorem C18_gather_scatter (mask : list bool) (u p : vec S) :
+  length u = count_of false mask -> length p = count_of true mask ->
+  gather mask false (scatter_up mask u p) = u /\ gather mask true (scatter_up mask u p) = p.
+Proof. exact (gather_scatter mask u p). Qed.
+
+(* A2': the matrix-free operator handed to the pressure solver (spmv()) is the true Schur
+   complement action Kpp - Kpu U Kup: for adjust_p = 0 and 2 always, for adjust_p = 1 when every
+   row of Kpp has a structural diagonal entry (L is any vector of the right length, in
+   particular the one init() computes).  Without that diagonal: C18_schur_adjust1_no_diagonal_refuted *)
+Theorem C18_schur_op_is_schur_complement (adjust_p : nat) (Kpp Kup Kpu : crs S) (L : vec S) (solveU : vec S -> vec S) (x : vec S) :
+  (adjust_p = 1%nat -> has_diag Kpp = true /\ length L = nrows Kpp /\ length x = nrows Kpp) ->
+  schur_op adjust_p Kpp Kup Kpu L solveU x = schur_true Kpp Kup Kpu solveU x.
+Proof. exact (schur_op_true Srt adjust_p Kpp Kup Kpu L solveU x). Qed.
+
+(* A2 composed with A1 and A2': the MODEL's apply() (schur_apply on the unsplit vector, with the
+   blocks extracted by sub_block from a well-formed K and any mask) of type 1, with a two-sided
+   exact inner solve for Kuu and an exact inner solve for the operator schur_op it hands to the
+   pressure solver, is the exact inverse of K *)
+Theorem C18_schur_model_type1_inverse (K : crs S) (mask : list bool) (adjust_p : nat) (L : vec S)
+    (solveU solveS : vec S -> vec S) :
+  let nu := count_of false mask in let np := count_of true mask in
+  let Kuu := sub_block K mask false false in let Kup := sub_block K mask false true in
+  let Kpu := sub_block K mask true false in let Kpp := sub_block K mask true true in
+  wf K = true -> nrows K = length mask -> ncols K = length mask ->
+  (adjust_p = 1%nat -> has_diag Kpp = true /\ length L = np) ->
+  (forall v, length v = nu -> length (solveU v) = nu) ->
+  (forall v, length v = np -> length (solveS v) = np) ->
+  (forall v, length v = nu -> mv Kuu (solveU v) = v) ->
+  (forall v, length v = nu -> solveU (mv Kuu v) = v) ->
+  (forall v, length v = np -> schur_op adjust_p Kpp Kup Kpu L solveU (solveS v) = v) ->
+  forall f, length f = length mask -> mv K (schur_apply 1 K mask solveU solveS f) = f.
+Proof. exact (schur_model_type1_inverse Srt K mask adjust_p L solveU solveS). Qed.
+
+(* type 2 solves the block upper-triangular system [[Kuu,Kup],[0,S]] (u,p) = (fu,fp) *)
+Theorem C18_schur_model_type2_triangular (K : crs S) (mask : list bool) (adjust_p : nat) (L : vec S)
+    (solveU solveS : vec S -> vec S) :
+  let nu := count_of false mask in let np := count_of true mask in
+  let Kuu := sub_block K mask false false in let Kup := sub_block K mask false true in
+  let Kpu := sub_block K mask true false in let Kpp := sub_block K mask true true in
+  nrows K = length mask ->
+  (adjust_p = 1%nat -> has_diag Kpp = true /\ length L = np) ->
+  (forall v, length v = nu -> length (solveU v) = nu) ->
+  (forall v, length v = np -> length (solveS v) = np) ->
+  (forall v, length v = nu -> mv Kuu (solveU v) = v) ->
+  (forall v, length v = np -> schur_op adjust_p Kpp Kup Kpu L solveU (solveS v) = v) ->
+  forall f, length f = length mask ->
+  let y := schur_apply 2 K mask solveU solveS f in
+  vadd (mv Kuu (gather mask false y)) (mv Kup (gather mask true y)) = gather mask false f /\
+  schur_true Kpp Kup Kpu solveU (gather mask true y) = gather mask true f.
+Proof. exact (schur_model_type2_triangular Srt K mask adjust_p L solveU solveS). Qed.
+
+(* A4: after project(), Z^T (b - A x) = 0 for every deflation vector, given that E^-1 is a
+   right inverse of E = Z^T A Z (deflate_E) on the vector Z^T r *)
+Theorem C18_deflate_project_orthogonal (A : crs S) (n : nat) (b : vec S) :
+  length b = nrows A -> forall (Z Einv : list (vec S)) (x : vec S),
+  Forall (fun z => length z = n) Z -> length x = n ->
+  let fz := map (fun z => dotv z (vsub b (mv A x))) Z in
+  matvec (deflate_E A Z) (matvec Einv fz) = fz ->
+  forall z, In z Z -> dotv z (vsub b (mv A (deflate_project A Z Einv b x))) = s0.
+Proof. exact (deflate_project_orthogonal Srt A n b). Qed.
+
+(* ... which follows from the entrywise statement E E^-1 = I (the form of C16_inverse_exact) *)
+Theorem C18_matvec_inverse (E Einv : list (vec S)) (nv : nat) :
+  length E = nv -> length Einv = nv ->
+  Forall (fun r => length r = nv) E -> Forall (fun r => length r = nv) Einv ->
+  (forall i j, i < nv -> j < nv ->
+     sumn (fun k => vget (nth i E []) k * vget (nth k Einv []) j) nv = if Nat.eqb i j then s1 else s0) ->
+  forall v, length v = nv -> matvec E (matvec Einv v) = v.
+Proof. exact (matvec_inverse Srt E Einv nv). Qed.
+
+(* the deflated preconditioner apply() = P.apply ; project : its output has a residual
+   orthogonal to Z for every inner preconditioner P *)
+Theorem C18_deflated_precond_orthogonal (A : crs S) (n : nat) (Z Einv : list (vec S)) (P : vec S -> vec S) (r : vec S) :
+  length r = nrows A -> Forall (fun z => length z = n) Z -> length (P r) = n ->
+  (forall v, length v = length Z -> matvec (deflate_E A Z) (matvec Einv v) = v) ->
+  forall z, In z Z -> dotv z (vsub r (mv A (deflated_precond A Z Einv P r))) = s0.
+Proof. exact (deflated_precond_orthogonal Srt A n Z Einv P r). Qed.
+End Ring2.
+
+(* the deflated solve is  project(rhs, x); S(A, deflated preconditioner, rhs, x)  with the
+   ORIGINAL matrix: when the inner (iterative) solver converged, the result solves the original
+   system -- no post-processing is needed, and none is done (any Scalar) *)
+Theorem C18_deflated_solve_solves (S : Scalar) iter (A : crs S) (Z Einv : list (vec S)) (P : vec S -> vec S) (rhs x : vec S) :
+  (forall op M f x0, op (iter op M f x0) = f) ->
+  mv A (deflated_solve iter A Z Einv P rhs x) = rhs.
+Proof. exact (deflated_solve_solves iter A Z Einv P rhs x). Qed.
+Print Assumptions C18_deflated_solve_solves.
+
+(* A4 closed over init() (field): with the E^-1 that init() computes by detail::inverse on the
+   row-major array E (C16-A3, InverseExact.v), project() leaves Z^T (b - A x) = 0.
+   [sinv s0 = s0] is how the exact instance and vq::Q totalise 1/0 (see Properties_C16.v) *)
+Section Field.
+Variable S : Scalar.
+Hypothesis Sft : Sfield S.
+Hypothesis Seqb : seqb_spec S.
+Hypothesis sinv_0 : sinv (@s0 S) = s0.
+Theorem C18_deflate_init_project_orthogonal (A : crs S) (n : nat) (Z Einv : list (vec S)) (t b x : vec S) :
+  length t = (length Z * length Z)%nat -> deflate_init A Z t = Some Einv ->
+  length b = nrows A -> Forall (fun z => length z = n) Z -> length x = n ->
+  forall z, In z Z -> dotv z (vsub b (mv A (deflate_project A Z Einv b x))) = s0.
+Proof. exact (deflate_init_project_orthogonal Sft Seqb sinv_0 A n Z Einv t b x). Qed.
+End Field.
+
+(* ---- closed at the exact rationals ---- *)
+Theorem C18_reassemble_Qc (K : crs QcS) (mask : list bool) (x : vec QcS) :
+  wf K = true -> nrows K = length mask -> ncols K = length mask -> length x = length mask ->
+  let xu := gather mask false x in let xp := gather mask true x in
+  mv K x = scatter_up mask (vadd (mv (sub_block K mask false false) xu) (mv (sub_block K mask false true) xp))
+                           (vadd (mv (sub_block K mask true false) xu) (mv (sub_block K mask true true) xp)).
+Proof. exact (C18_reassemble QcS QcS_ring K mask x). Qed.
+Print Assumptions C18_reassemble_Qc.
+
+Theorem C18_schur_model_type1_inverse_Qc (K : crs QcS) (mask : list bool) (adjust_p : nat) (L : vec QcS)
+    (solveU solveS : vec QcS -> vec QcS) :
+  let nu := count_of false mask in let np := count_of true mask in
+  let Kuu := sub_block K mask false false in let Kup := sub_block K mask false true in
+  let Kpu := sub_block K mask true false in let Kpp := sub_block K mask true true in
+  wf K = true -> nrows K = length mask -> ncols K = length mask ->
+  (adjust_p = 1%nat -> has_diag Kpp = true /\ length L = np) ->
+  (forall v, length v = nu -> length (solveU v) = nu) ->
+  (forall v, length v = np -> length (solveS v) = np) ->
+  (forall v, length v = nu -> mv Kuu (solveU v) = v) ->
+  (forall v, length v = nu -> solveU (mv Kuu v) = v) ->
+  (forall v, length v = np -> schur_op adjust_p Kpp Kup Kpu L solveU (solveS v) = v) ->
+  forall f, length f = length mask -> mv K (schur_apply 1 K mask solveU solveS f) = f.
+Proof. exact (C18_schur_model_type1_inverse QcS QcS_ring K mask adjust_p L solveU solveS). Qed.
+Print Assumptions C18_schur_model_type1_inverse_Qc.
+
+Theorem C18_schur_model_type2_triangular_Qc (K : crs QcS) (mask : list bool) (adjust_p : nat) (L : vec QcS)
+    (solveU solveS : vec QcS -> vec QcS) :
+  let nu := count_of false mask in let np := count_of true mask in
+  let Kuu := sub_block K mask false false in let Kup := sub_block K mask false true in
+  let Kpu := sub_block K mask true false in let Kpp := sub_block K mask true true in
+  nrows K = length mask ->
+  (adjust_p = 1%nat -> has_diag Kpp = true /\ length L = np) ->
+  (forall v, length v = nu -> length (solveU v) = nu) ->
+  (forall v, length v = np -> length (solveS v) = np) ->
+  (forall v, length v = nu -> mv Kuu (solveU v) = v) ->
+  (forall v, length v = np -> schur_op adjust_p Kpp Kup Kpu L solveU (solveS v) = v) ->
+  forall f, length f = length mask ->
+  let y := schur_apply 2 K mask solveU solveS f in
+  vadd (mv Kuu (gather mask false y)) (mv Kup (gather mask true y)) = gather mask false f /\
+  schur_true Kpp Kup Kpu solveU (gather mask true y) = gather mask true f.
+Proof. exact (C18_schur_model_type2_triangular QcS QcS_ring K mask adjust_p L solveU solveS). Qed.
+Print Assumptions C18_schur_model_type2_triangular_Qc.
+
+Theorem C18_deflate_init_project_orthogonal_Qc (A : crs QcS) (n : nat) (Z Einv : list (vec QcS)) (t b x : vec QcS) :
+  length t = (length Z * length Z)%nat -> deflate_init A Z t = Some Einv ->
+  length b = nrows A -> Forall (fun z => length z = n) Z -> length x = n ->
+  forall z, In z Z -> dotv z (vsub b (mv A (deflate_project A Z Einv b x))) = s0.
+Proof. exact (C18_deflate_init_project_orthogonal QcS QcS_field QcS_eqb eq_refl A n Z Einv t b x). Qed.
+Print Assumptions C18_deflate_init_project_orthogonal_Qc.
+
+(* adjust_p = 1 and a pressure row WITHOUT a structural Kpp diagonal entry: the faithful model
+   (kpp_adjust1 leaves the row unchanged, L is still added back in spmv()) hands the pressure
+   solver an operator that is NOT the Schur complement -- witness K = [[1,1],[1,.]]: S = -1 but
+   the operator is 0 (singular).  Implementation and model agree on this (correspondence);
+   known finding C18-schur-adjust1-no-diagonal *)
+Theorem C18_schur_adjust1_no_diagonal_refuted :
+  let Kuu := sub_block ex_K ex_mask false false in let Kup := sub_block ex_K ex_mask false true in
+  let Kpu := sub_block ex_K ex_mask true false in let Kpp := sub_block ex_K ex_mask true true in
+  let solveU := (fun v : vec QcS => v) in
+  let L := ld_vec Kpu Kup (kuu_dia false Kuu []) in
+  wf ex_K = true /\ has_diag Kpp = false /\
+  (forall v, length v = 1%nat -> mv Kuu (solveU v) = v) /\
+  schur_true Kpp Kup Kpu solveU [qc 1 1] = [qc (-1) 1] /\
+  schur_op 1 Kpp Kup Kpu L solveU [qc 1 1] = [qc 0 1].
+Proof. exact schur_adjust1_no_diagonal_refuted. Qed.
+Print Assumptions C18_schur_adjust1_no_diagonal_refuted.
+
+(* the hypotheses of C18_schur_model_type1_inverse are satisfiable (K = [[2,1],[1,3]]) *)
+Example C18_schur_type1_hyps_satisfiable :
+  let K := ex2_K in let mask := ex_mask in let adjust_p := 0%nat in let L : vec QcS := [] in
+  let solveU := ex2_U in let solveS := ex2_S in
+  let nu := count_of false mask in let np := count_of true mask in
+  let Kuu := sub_block K mask false false in let Kup := sub_block K mask false true in
+  let Kpu := sub_block K mask true false in let Kpp := sub_block K mask true true in
+  wf K = true /\ nrows K = length mask /\ ncols K = length mask /\
+  (adjust_p = 1%nat -> has_diag Kpp = true /\ length L = np) /\
+  (forall v, length v = nu -> length (solveU v) = nu) /\
+  (forall v, length v = np -> length (solveS v) = np) /\
+  (forall v, length v = nu -> mv Kuu (solveU v) = v) /\
+  (forall v, length v = nu -> solveU (mv Kuu v) = v) /\
+  (forall v, length v = np -> schur_op adjust_p Kpp Kup Kpu L solveU (solveS v) = v).
+Proof. exact schur_type1_hyps_satisfiable. Qed.
